@@ -203,7 +203,7 @@ func (c *Conn) Pending() int { return c.inBytes }
 func (c *Conn) LocalAddr() net.Addr  { return addr(c.Name) }
 func (c *Conn) RemoteAddr() net.Addr { return addr(c.Name + ".peer") }
 
-var past = time.Unix(1<<31, 0) // any non-zero deadline before 2038 counts as "already expired"
+var past = time.Unix(1000000000, 0) // any non-zero deadline before 2001 counts as "already expired"
 
 func (c *Conn) SetDeadline(t time.Time) error {
 	if err := c.SetReadDeadline(t); err != nil {
@@ -281,13 +281,20 @@ type Listener struct {
 	LastArm  int // value of Accepts when the deadline was last armed
 	Unarmed  int // Accept calls begun without a fresh SetDeadline since the previous Accept
 	dials    int
-	Waiting  int // threads currently parked in Accept
+	Waiting  int             // threads currently parked in Accept
+	Hook     func(ev string) // called when an operation executes: accept-conn, accept-timeout, accept-closed, setdl, close
 	Refused  int
 }
 
 func NewListener(name string) *Listener { return &Listener{Name: name} }
 
 func (l *Listener) String() string { return l.Name }
+
+func (l *Listener) hook(ev string) {
+	if l.Hook != nil {
+		l.Hook(ev)
+	}
+}
 
 func (l *Listener) acceptable() bool { return l.closed || l.expired || len(l.queue) > 0 }
 
@@ -302,10 +309,13 @@ func (l *Listener) Accept() (net.Conn, error) {
 	vsched.Acquire(l)
 	switch {
 	case l.closed:
+		l.hook("accept-closed")
 		return nil, opErr("accept", net.ErrClosed)
 	case l.expired:
+		l.hook("accept-timeout")
 		return nil, opErr("accept", timeoutError{})
 	}
+	l.hook("accept-conn")
 	c := l.queue[0]
 	l.queue = l.queue[1:]
 	l.Accepted = append(l.Accepted, c)
@@ -314,6 +324,7 @@ func (l *Listener) Accept() (net.Conn, error) {
 
 func (l *Listener) Close() error {
 	vsched.Yield("lclose", l, vsched.Always)
+	l.hook("close")
 	l.Closes++
 	if l.closed {
 		return opErr("close", net.ErrClosed)
@@ -333,6 +344,7 @@ func (l *Listener) Addr() net.Addr { return addr(l.Name) }
 
 func (l *Listener) SetDeadline(t time.Time) error {
 	vsched.Yield("lsetdl", l, vsched.Always)
+	l.hook("setdl")
 	if l.closed {
 		return opErr("set", net.ErrClosed)
 	}
